@@ -134,6 +134,7 @@ pub struct Report {
 impl Report {
     pub fn new(property: &'static str, args: &Args) -> Report {
         crate::util::silence_panics();
+        start_no_progress_watchdog(property);
         Report {
             property,
             evaluations: 0,
@@ -152,10 +153,12 @@ impl Report {
     #[inline]
     pub fn eval(&mut self) {
         self.evaluations += 1;
+        HEARTBEAT.fetch_add(1, std::sync::atomic::Ordering::Relaxed);
     }
     #[inline]
     pub fn evals(&mut self, n: u64) {
         self.evaluations += n;
+        HEARTBEAT.fetch_add(1, std::sync::atomic::Ordering::Relaxed);
     }
     /// Record a distinct non-trivial case key (hashed; the driver unions the hashes over shards).
     #[inline]
@@ -306,4 +309,32 @@ impl Report {
         }
         std::process::exit(0)
     }
+}
+
+/// Bumped by every `Report::eval`. One evaluation takes microseconds to milliseconds; a monitor whose counter does not move
+/// for VERIF_NO_PROGRESS_S seconds (default 300: five to six orders of magnitude of head-room, so a loaded machine cannot
+/// cause it) is stuck inside ONE call of the code under test - a call that does not return. The process then says so and
+/// exits with code 3; the driver reports `<ID>/call-does-not-return`. Not armed under Miri.
+pub static HEARTBEAT: std::sync::atomic::AtomicU64 = std::sync::atomic::AtomicU64::new(0);
+fn start_no_progress_watchdog(property: &'static str) {
+    if cfg!(miri) {
+        return;
+    }
+    static STARTED: std::sync::atomic::AtomicBool = std::sync::atomic::AtomicBool::new(false);
+    if STARTED.swap(true, std::sync::atomic::Ordering::SeqCst) {
+        return;
+    }
+    let limit: u64 = std::env::var("VERIF_NO_PROGRESS_S").ok().and_then(|s| s.parse().ok()).unwrap_or(300);
+    let _ = std::thread::Builder::new().name("no-progress-watchdog".into()).spawn(move || {
+        let (mut last, mut idle) = (u64::MAX, 0u64);
+        loop {
+            std::thread::sleep(std::time::Duration::from_secs(5));
+            let h = HEARTBEAT.load(std::sync::atomic::Ordering::Relaxed);
+            if h == last { idle += 5; } else { idle = 0; last = h; }
+            if idle >= limit {
+                eprintln!("NO-PROGRESS property={} evaluations_so_far={} idle_seconds={}: one call of the code under test has not returned", property, h, idle);
+                std::process::exit(3);
+            }
+        }
+    });
 }
